@@ -168,8 +168,17 @@ def seq(x):
 
 
 def render_pool(pool, ids):
-    """the caller's objects: a dict of conditions (lists of admissible values are fresh list objects) or a callable"""
-    return [PREDS[f['name']] if f['kind'] == 'pred' else {c: cell_cond(cc, ids) for c, cc in seq(f['items'])} for f in pool]
+    """the caller's objects: a callable, or a dict of conditions; a list of admissible values that occurs in two dicts of the
+    pool with the same contents is ONE list object held by both (a caller who reuses his list)"""
+    lists = {}
+    def cc_obj(cc):
+        if cc[0] == 'list':
+            key = repr(cc[1])
+            if key not in lists:
+                lists[key] = cell_cond(cc, ids)
+            return lists[key]
+        return cell_cond(cc, ids)
+    return [PREDS[f['name']] if f['kind'] == 'pred' else {c: cc_obj(cc) for c, cc in seq(f['items'])} for f in pool]
 
 
 def enc_obj(o, ids):
@@ -241,6 +250,30 @@ def session_case(o, k):
 
 
 OUTCOME_CLAUSE = {'inc': 'inc_rows', 'exc': 'exc_rows', 'find': 'find_value', 'one': 'one_or_none'}
+
+
+CALL_KEYS = {'pos', 'kw', 'op', 'col', 'x', 'on'}
+
+
+def well_formed(s):
+    """TLC's workers sort records in place; a record printed while another worker sorts it has been seen to lose a field.
+    Such a line is a fault of the transport, not a case: the generator is run again."""
+    try:
+        return (set(s) == {'t', 'pool', 'snap', 'hist'} and set(s['t']) == {'cols', 'rows'}
+                and all(set(f) == {'kind', 'name', 'items'} for f in seq(s['pool']) + seq(s['snap']))
+                and all(set(h) == {'call', 'opd', 'want'} and set(h['call']) == CALL_KEYS and seq(h['want'])
+                        and all('kind' in w for w in seq(h['want'])) and 'kind' in h['opd'] for h in seq(s['hist'])))
+    except Exception:
+        return False
+
+
+def gen_sessions(ctx, cfg, **kw):
+    from harness.core import Machinery
+    for attempt in range(3):
+        snaps = ctx.generate('MC_IncSession', cfg, **kw)
+        if all(well_formed(s) for s in snaps):
+            return snaps
+    raise Machinery('C06 sessions: %s printed malformed histories three times in a row' % cfg)
 
 
 def s2c_sessions(ctx, snaps, label):
@@ -383,7 +416,7 @@ def sessions(ctx):
     from harness.core import Machinery
     if ctx.quick:
         # one TLC run checks the clauses on every history of 2 calls AND prints them for the replay
-        snaps = ctx.generate('MC_IncSession', 'MC_IncSession_quick.cfg')
+        snaps = gen_sessions(ctx, 'MC_IncSession_quick.cfg')
         taken = {spelled(h['call'], x['pool']).replace('find_a', 'find').replace('find_b', 'find') for x in snaps for h in seq(x['hist'])}
         for need in ('inc(d,d)', 'exc(d,d)', 'find(d,d)', 'one(d,d)', 'inc(d,f)', 'exc(f,d)', 'inc(d,**d)', 'one(d,exc=d)', 'inc()', 'exc(f)', 'r.inc(d,d)', 'r.exc(d,**d)'):
             if need not in taken:
@@ -394,8 +427,8 @@ def sessions(ctx):
         # the model can express what it forbids: with `filters` BEING the caller's lone dict the pool does not survive inc(q1, q2)
         ctx.mc('MC_IncSession', 'MC_IncSession_adopt.cfg', must_fail='PoolUntouched', coverage=False)
         for cfg in ('MC_IncSession_gen2t.cfg', 'MC_IncSession_gen2f.cfg', 'MC_IncSession_gen3a.cfg'):
-            s2c_sessions(ctx, ctx.generate('MC_IncSession', cfg), cfg[13:-4])
-        s2c_sessions(ctx, ctx.generate('MC_IncSession', 'MC_IncSession_sim.cfg', simulate=1000, depth=6, seed=ctx.seed + 1, workers=1), 'sim')
+            s2c_sessions(ctx, gen_sessions(ctx, cfg), cfg[13:-4])
+        s2c_sessions(ctx, gen_sessions(ctx, 'MC_IncSession_sim.cfg', simulate=600, depth=6, seed=ctx.seed + 1, workers=1), 'sim')
 
 
 def run(ctx):
@@ -415,13 +448,13 @@ def run(ctx):
         cases = ctx.generate('MC_Inc', 'MC_Inc_gen2.cfg')
         s2c(ctx, ctx.rng.sample(cases, 6000))
     sessions(ctx)
-    c2s(ctx, 300 if ctx.quick else 5000, 300 if ctx.quick else 6000)
+    c2s(ctx, 300 if ctx.quick else 5000, 300 if ctx.quick else 3000)
     ctx.exhaustive = False
     ctx.assumptions += ['regular expressions are specified extensionally on the string universe StrU of spec/Table.tla; cells are drawn from it',
                         'small-scope: MC/S2C tables have <= 2 rows over 6-10 values; C2S tables <= 30 rows',
                         'histories: tables are grids of 2-4 a-values x 2 b-values (every row tells two filters apart), pools are a menu of 5 (thorough 12) '
                         'triples of filter objects; a column named by two filters of one call carries the same condition in both (SameColumnOnce), '
-                        'at most one callable per call (SingleCallable)',
+                        'at most one callable per call (SingleCallable); a list of admissible values occurring in two dicts of a pool is one shared list object',
                         'named deviations for a callable AND column conditions in one call: ExcMixed (two readings of exc accepted), '
                         'MixedEmptied (KeyError accepted when the callable alone accepts no row - reported as a defect of inc)']
 
